@@ -2,7 +2,8 @@ package blankhost_test
 
 // C07 reproduction on the real code (run through `go test -overlay`, nothing is written into /repo).
 //
-// BlankHost ignores the error of Stream.SetProtocol on both sides of a negotiation:
+// Before fix commit 8f2a931 BlankHost ignored the error of Stream.SetProtocol on both sides of a negotiation (both tests
+// failed then and pass now):
 //   - dialer: NewStream returns (stream, nil) although the resource manager refused to attach the stream to the
 //     negotiated protocol's scope; the stream reports Protocol() == "" and is not charged to the protocol scope;
 //   - listener: newStreamHandler runs the application handler on such a stream (protocol stream limit not enforced).
